@@ -303,6 +303,8 @@ impl Rasterizer {
     // Fitz clips edges to the bounding box
     #[allow(non_snake_case)]
     pub fn add_edge(&mut self, mut start: Point, mut end: Point, curve: bool, control: Point) {
+        #[cfg(raqote_verif)]
+        verif_edges::log(start, end, curve, control);
         if curve {
             //println!("add_edge {}, {} - {}, {} - {}, {}", start.x, start.y, control.x, control.y, end.x, end.y);
         } else {
@@ -662,6 +664,31 @@ impl Rasterizer {
         self.bounds_right = 0;
         self.bounds_top = dot2_to_int(self.height);
         self.bounds_left = dot2_to_int(self.width);
+    }
+}
+
+/// Verification hook: a recorder of the edges handed to `add_edge` (off unless switched on).
+#[cfg(raqote_verif)]
+pub mod verif_edges {
+    use crate::Point;
+    use std::cell::RefCell;
+    thread_local! {
+        static LOG: RefCell<Option<Vec<(Point, Point, bool, Point)>>> = RefCell::new(None);
+    }
+    pub(crate) fn log(start: Point, end: Point, curve: bool, control: Point) {
+        LOG.with(|l| {
+            if let Some(v) = l.borrow_mut().as_mut() {
+                v.push((start, end, curve, control));
+            }
+        });
+    }
+    /// Start recording the edges added on this thread.
+    pub fn start() {
+        LOG.with(|l| *l.borrow_mut() = Some(Vec::new()));
+    }
+    /// Stop recording and return (start, end, is_curve, control) of every edge added since `start`.
+    pub fn take() -> Vec<(Point, Point, bool, Point)> {
+        LOG.with(|l| l.borrow_mut().take().unwrap_or_default())
     }
 }
 
